@@ -1282,7 +1282,9 @@ def parse_txt(txt, xopts=None, **kwargs):
     uniquifier = xopts.uniquifier
     if uniquifier is None:
         log.debug(f"creating uniquifier for {txt}")
-        uniquifier = uniq.Uniquifier()
+        # share the table with the expander: create_ref/create_poem expand their body through
+        # it, and the markers produced there must be known to this parse
+        uniquifier = xopts.expander.uniquifier
         txt = uniquifier.replace_tags(txt)
         xopts.uniquifier = uniquifier
 
